@@ -112,6 +112,8 @@ impl Attr for f32 { const NAME: &'static str = "f32"; const N: usize = 1; fn mak
 impl Attr for Vec2 { const NAME: &'static str = "Vec2"; const N: usize = 2; fn make(c: &[f32]) -> Self { vec2(c[0], c[1]) } fn comps(&self) -> Vec<f64> { self.0.iter().map(|x| *x as f64).collect() } }
 impl Attr for Vec3 { const NAME: &'static str = "Vec3"; const N: usize = 3; fn make(c: &[f32]) -> Self { vec3(c[0], c[1], c[2]) } fn comps(&self) -> Vec<f64> { self.0.iter().map(|x| *x as f64).collect() } }
 impl Attr for Point2 { const NAME: &'static str = "Point2"; const N: usize = 2; fn make(c: &[f32]) -> Self { pt2(c[0], c[1]) } fn comps(&self) -> Vec<f64> { self.0.iter().map(|x| *x as f64).collect() } }
+impl Attr for re::math::Angle { const NAME: &'static str = "Angle"; const N: usize = 1; fn make(c: &[f32]) -> Self { re::math::rads(c[0]) } fn comps(&self) -> Vec<f64> { vec![self.to_rads() as f64] } }
+impl Attr for re::math::Point3 { const NAME: &'static str = "Point3"; const N: usize = 3; fn make(c: &[f32]) -> Self { pt3(c[0], c[1], c[2]) } fn comps(&self) -> Vec<f64> { self.0.iter().map(|x| *x as f64).collect() } }
 impl Attr for Color4f { const NAME: &'static str = "Color4f"; const N: usize = 4; fn make(c: &[f32]) -> Self { rgba(c[0], c[1], c[2], c[3]) } fn comps(&self) -> Vec<f64> { self.0.iter().map(|x| *x as f64).collect() } }
 impl Attr for Color3f { const NAME: &'static str = "Color3f"; const N: usize = 3; fn make(c: &[f32]) -> Self { rgb(c[0], c[1], c[2]) } fn comps(&self) -> Vec<f64> { self.0.iter().map(|x| *x as f64).collect() } }
 impl Attr for (f32, Vec2) { const NAME: &'static str = "(f32,Vec2)"; const N: usize = 3; fn make(c: &[f32]) -> Self { (c[0], vec2(c[1], c[2])) } fn comps(&self) -> Vec<f64> { vec![self.0 as f64, self.1 .0[0] as f64, self.1 .0[1] as f64] } }
@@ -228,7 +230,7 @@ fn main() {
             if c.get("kind").and_then(|j| j.as_str()) == Some("cover") { check_cover(t, r, &fam); }
             else {
                 let zi = c.get("zi").and_then(|j| j.as_u64()).unwrap_or(0) as usize;
-                match c.get("type").and_then(|j| j.as_str()).unwrap_or("") { "f32" => check_interp::<f32>(t, zi, r, &fam), "Vec2" => check_interp::<Vec2>(t, zi, r, &fam), "Vec3" => check_interp::<Vec3>(t, zi, r, &fam), "Point2" => check_interp::<Point2>(t, zi, r, &fam), "Color3f" => check_interp::<Color3f>(t, zi, r, &fam), "Color4f" => check_interp::<Color4f>(t, zi, r, &fam), _ => check_interp::<(f32, Vec2)>(t, zi, r, &fam) }
+                match c.get("type").and_then(|j| j.as_str()).unwrap_or("") { "f32" => check_interp::<f32>(t, zi, r, &fam), "Vec2" => check_interp::<Vec2>(t, zi, r, &fam), "Vec3" => check_interp::<Vec3>(t, zi, r, &fam), "Point2" => check_interp::<Point2>(t, zi, r, &fam), "Color3f" => check_interp::<Color3f>(t, zi, r, &fam), "Color4f" => check_interp::<Color4f>(t, zi, r, &fam), "Point3" => check_interp::<re::math::Point3>(t, zi, r, &fam), "Angle" => check_interp::<re::math::Angle>(t, zi, r, &fam), _ => check_interp::<(f32, Vec2)>(t, zi, r, &fam) }
             }
         });
     }
@@ -256,7 +258,7 @@ fn main() {
                     if zi % 2 == 0 || !quick { check_interp::<(f32, Vec2)>(t, zi, r, name); }
                     if zi % 4 == 1 || !quick { check_interp::<f32>(t, zi + 27, r, name); check_interp::<f32>(t, zi + 54, r, name); }
                     if zi % 13 == 5 || (!quick && zi % 3 == 1) { check_interp::<(f32, Vec2)>(t, zi + 27, r, name); check_interp::<(f32, Vec2)>(t, zi + 54, r, name); }
-                    if zi % 13 == 5 || (!quick && zi % 3 == 1) { check_interp::<Vec2>(t, zi, r, name); check_interp::<Vec3>(t, zi, r, name); check_interp::<Color3f>(t, zi, r, name); check_interp::<Color4f>(t, zi, r, name); check_interp::<Point2>(t, zi, r, name); }
+                    if zi % 13 == 5 || (!quick && zi % 3 == 1) { check_interp::<Vec2>(t, zi, r, name); check_interp::<Vec3>(t, zi, r, name); check_interp::<Color3f>(t, zi, r, name); check_interp::<Color4f>(t, zi, r, name); check_interp::<Point2>(t, zi, r, name); check_interp::<re::math::Point3>(t, zi, r, name); check_interp::<re::math::Angle>(t, zi, r, name); }
                 }
             }));
         }
@@ -270,7 +272,7 @@ fn main() {
             &["screen coordinates in [0, 64] (negative pixel coordinates are outside tri_fill's usize domain)", "z = 1, attribute ()"]);
     } else {
         rep.finish(&cfg, "exploration",
-            "triangles as for C04 (thinned in the quick tier) x all 27 reciprocal-depth assignments over {1, 0.5, 0.1} (w ratio up to 10:1), also with all three scaled by 2^-24 and 2^10 (f32 attribute; other types on a subset), x attribute types f32, (f32,Vec2) and, on a stated subset, Vec2, Vec3, Color3f, Color4f, Point2 with distinct non-constant vertex values handed over pre-divided (a*z). Oracle: f64 barycentric planes through the vertex depths and values at the pixel centre; var = value plane / depth plane; tolerance 0.5% of the vertex range; every fragment finite for area > 1e-6 (triangles with minimum altitude < 0.05 px are judged for finiteness and position only); reported position within 1e-3 px of the pixel centre. non-trivial = triangle with >= 1 fragment fully judged.",
+            "triangles as for C04 (thinned in the quick tier) x all 27 reciprocal-depth assignments over {1, 0.5, 0.1} (w ratio up to 10:1), also with all three scaled by 2^-24 and 2^10 (f32 attribute; other types on a subset), x attribute types f32, (f32,Vec2) and, on a stated subset, Vec2, Vec3, Color3f, Color4f, Point2, Point3, Angle with distinct non-constant vertex values handed over pre-divided (a*z). Oracle: f64 barycentric planes through the vertex depths and values at the pixel centre; var = value plane / depth plane; tolerance 0.5% of the vertex range; every fragment finite for area > 1e-6 (triangles with minimum altitude < 0.05 px are judged for finiteness and position only); reported position within 1e-3 px of the pixel centre. non-trivial = triangle with >= 1 fragment fully judged.",
             &["coordinates in [0, 64]", "tolerance 0.005*range + 1e-5*max|value|"]);
     }
 }
